@@ -319,6 +319,12 @@ func RunC11Scenario(sc *Scenario) (vd *Verdict) {
 
 func (r *c11Run) installHooks() {
 	hooks.onFaultOn = func(owner any, name string, subject any, hit int64) error {
+		// anything that calls into the hub (and may park at a hook there) happens before the harness lock is taken
+		var sinkIDs []string
+		if name == "sink.dataset" && len(r.rejectSuffix) > 0 {
+			sinkIDs = entIDs(r.H, subject)
+		}
+		gid := curGid()
 		r.mu.Lock()
 		defer r.mu.Unlock()
 		switch name {
@@ -332,7 +338,7 @@ func (r *c11Run) installHooks() {
 				r.fail(viol("C11", "overlap", "two-runs-of-one-job", "a run of job %s started while another run of the same job holds its slot", id))
 			}
 			r.lastActivity = time.Now()
-			r.runOf[curGid()] = &c11Rec{id: id, start: time.Now()}
+			r.runOf[gid] = &c11Rec{id: id, start: time.Now()}
 			r.active[id]++
 			r.started[id]++
 			r.lastStart[id] = time.Now()
@@ -369,11 +375,11 @@ func (r *c11Run) installHooks() {
 			}
 		case "sink.dataset", "transform.batch":
 			if name == "sink.dataset" && len(r.rejectSuffix) > 0 {
-				for _, id := range entIDs(r.H, subject) {
+				for _, id := range sinkIDs {
 					for _, sfx := range r.rejectSuffix {
 						if strings.HasSuffix(id, sfx) {
 							r.Stats["fault_sink_reject"]++
-							if rec := r.runOf[curGid()]; rec != nil {
+							if rec := r.runOf[gid]; rec != nil {
 								rec.rejected = id
 							}
 							return fmt.Errorf("scripted sink refuses %s", shortURI(id))
